@@ -70,8 +70,14 @@ def handle (cmd : String) (j : J) : Except String J :=
     | "new" => pure (exJ10 pairJ (seqRoundtripNew parent v))
     | "view_copy_new" => pure (exJ10 pairJ (viewCopyNew parent v))
     | "copy_new" => pure (exJ10 pairJ (seqCopyNew parent v))
+    | "view_copy_new_fixed" => pure (exJ10 pairJ (viewCopyNewRepaired parent v))
+    | "copy_new_fixed" => pure (exJ10 pairJ (seqCopyNewRepaired parent v))
     | "dataview" => pure (exJ10 pairJ (seqRoundtripDataView parent v))
     | p => throw s!"bad path {p}"
+  | "coerce" => do
+    -- `_coerce_to_seqview(data: SeqView, …, annotation_offset)` on its own (incl. the ValueError branch)
+    let v ← parseView j
+    pure (exJ10 viewJ10 (coerceOffset v (← (← j.get "annotation_offset").toInt)))
   | "indel" => do
     let r := RichDict.IndelMap.mk' (← (← j.get "gap_pos").toListOf J.toInt) (← optList (← j.get "cum"))
       (← optList (← j.get "lengths")) (← (← j.get "termini_unknown").toBool) (← (← j.get "parent_length").toInt)
@@ -89,6 +95,16 @@ def handle (cmd : String) (j : J) : Except String J :=
     let b := RichDict.FeatureMap.construct m
     pure (J.obj [("built", fstateJ b.state), ("json", fstateJ b.roundtripJson.state),
                  ("pickle", fstateJ b.state.roundtripPickle)])
+  | "fstate" => do
+    -- a LIVE map state (spans as they are now, e.g. after zeroed()) through the current JSON route
+    let spans ← (← j.get "spans").toListOf parseSpan
+    let live := spans.map fun a => match a with
+      | .span s (some e) ts te r => SpanState.span s e ts te r
+      | .span s none ts te r => SpanState.span s (s + 1) ts te r
+      | .lost l => SpanState.lost l
+    let st : FeatureState := { spans := live, parentLength := ← (← j.get "parent_length").toInt,
+                               length := ← (← j.get "length").toInt }
+    pure (J.obj [("json_live", fstateJ st.roundtripJsonLive), ("pickle", fstateJ st.roundtripPickle)])
   | _ => throw s!"unknown command {cmd}"
 
 def main : IO Unit := driverLoop handle
